@@ -206,6 +206,30 @@ class _P:
         raise SqlError("unexpected token %s in expression" % (x,))
 
 
+def parse_batch(sql):
+    """the statements of a `;`-separated batch (execute_batch), each parsed on its own"""
+    toks = tokenize(sql)
+    parts, cur = [], []
+    for t in toks:
+        if t == ("op", ";"):
+            if cur:
+                parts.append(cur)
+            cur = []
+        else:
+            cur.append(t)
+    if cur:
+        parts.append(cur)
+    out = []
+    for part in parts:
+        p = _P(part)
+        st = _stmt(p)
+        if p.peek()[0] != "eof":
+            raise SqlError("trailing tokens after statement: %s" % (p.peek(),))
+        st["text"] = " ".join(str(t[1]) for t in part)
+        out.append(st)
+    return out
+
+
 def parse(sql):
     toks = tokenize(sql)
     if toks and toks[-1] == ("op", ";"):
@@ -355,6 +379,14 @@ def _stmt(p):
     if p.kw("CREATE", "TABLE"):
         ine = p.kw("IF", "NOT", "EXISTS")
         table = p.expect("id")[1]
+        if p.kw("AS"):
+            # CREATE TABLE t AS SELECT ...: the new table has the selected columns and NO constraints (no primary key, no NOT NULL)
+            sel = _stmt(p)
+            if sel.get("kind") != "select":
+                raise SqlError("CREATE TABLE AS without SELECT")
+            names = [(al or (e[1] if e[0] == "col" else "?")) for e, al in sel["items"]]
+            return {"kind": "create", "table": table, "if_not_exists": ine, "columns": [str(x).lower() for x in names], "primary_key": [],
+                    "as_select": sel}
         p.expect("op", "(")
         cols = []
         pk = []
@@ -404,6 +436,15 @@ def _stmt(p):
             while p.peek()[0] != "eof":
                 rest.append(p.next())
             return {"kind": "alter", "table": table, "action": "add_column", "column": str(col[1]).lower()}
+        if p.peek()[0] in ("id", "kw") and str(p.peek()[1]).upper() == "RENAME":
+            p.next()
+            if p.peek()[0] in ("id", "kw") and str(p.peek()[1]).upper() == "TO":
+                p.next()
+                new = p.next()[1]
+                return {"kind": "alter", "table": table, "action": "rename_table", "column": None, "new_name": str(new).lower()}
+            while p.peek()[0] != "eof":
+                p.next()
+            return {"kind": "alter", "table": table, "action": "rename_column", "column": None}
         raise SqlError("unsupported ALTER TABLE action")
     x = p.peek()
     # explicit transaction control: SAVEPOINT n / RELEASE [SAVEPOINT] n / ROLLBACK [TRANSACTION] [TO [SAVEPOINT] n] / END
@@ -500,5 +541,13 @@ def sql_sites(P, bodies=None):
                     stmt = parse(sql)
                 except SqlError as e:
                     err = str(e)
+                    if m == "execute_batch" and err.startswith("multiple statements"):
+                        # a batch: one site per statement, all at this call
+                        try:
+                            for st in parse_batch(sql):
+                                out.append(SqlSite(b, bb, t, m, st["text"], st, [], None))
+                            continue
+                        except SqlError as e2:
+                            err = str(e2)
             out.append(SqlSite(b, bb, t, m, sql, stmt, params, err))
     return out
